@@ -272,9 +272,15 @@ func (e *Engine) takeWake(th *Thread) *Wake {
 	return w
 }
 
+// wakeSync makes a thread resumed by its rendez-vous partner acquire the channel's clock.
+func (e *Engine) wakeSync(st *State, th *Thread, ch int) {
+	// the clocks were exchanged by the partner when it completed the rendez-vous
+}
+
 func (e *Engine) execRecv(st *State, th *Thread, fr *Frame, in *ssa.UnOp) {
 	if w := e.takeWake(th); w != nil {
 		th.granted = false
+		e.wakeSync(st, th, e.val(st, fr, in.X).(ChanV).obj)
 		e.setRecvResult(fr, in, in.CommaOk, w.val, w.ok)
 		fr.pc++
 		return
@@ -303,6 +309,11 @@ func (e *Engine) doRecv(st *State, th *Thread, ch int, et types.Type) (Value, bo
 	}
 	cd := st.heap[ch].(*ChanData)
 	if r == 0 {
+		e.acquire(st, th, fmt.Sprintf("ch:%d", ch))
+	} else {
+		e.rendezvous(st, th, st.threads[r-1])
+	}
+	if r == 0 {
 		if len(cd.buf) > 0 {
 			nc := *cd
 			v := cd.buf[0]
@@ -329,6 +340,11 @@ func (e *Engine) doSend(st *State, th *Thread, ch int, v Value) {
 		panic(goPanic{"send on closed channel"})
 	}
 	if r == 0 {
+		e.release(st, th, fmt.Sprintf("ch:%d", ch))
+	} else {
+		e.rendezvous(st, th, st.threads[r-1])
+	}
+	if r == 0 {
 		nc := *cd
 		nc.buf = append(append([]Value(nil), cd.buf...), v)
 		st.heap[ch] = &nc
@@ -342,6 +358,7 @@ func (e *Engine) doSend(st *State, th *Thread, ch int, v Value) {
 func (e *Engine) execSend(st *State, th *Thread, fr *Frame, in *ssa.Send) {
 	if w := e.takeWake(th); w != nil {
 		th.granted = false
+		e.wakeSync(st, th, e.val(st, fr, in.Chan).(ChanV).obj)
 		fr.pc++
 		return
 	}
@@ -371,6 +388,7 @@ func (e *Engine) execSelect(st *State, th *Thread, fr *Frame, in *ssa.Select) {
 	if w := e.takeWake(th); w != nil {
 		th.granted = false
 		s := in.States[w.caseIdx]
+		e.wakeSync(st, th, e.val(st, fr, s.Chan).(ChanV).obj)
 		if s.Dir == types.RecvOnly {
 			e.setReg(fr, in, mkResult(w.caseIdx, w.ok, w.val))
 		} else {
